@@ -579,6 +579,8 @@ impl Expression {
     /// This is a pseudo-expression, and emits an expression with
     /// sub-expressions
     pub fn rotl(e: Expression, s: Expression) -> Result<Expression, Error> {
+        // rotating by the width is the identity: reduce the amount first
+        let s = Expression::modu(s, expr_const(e.bits() as u64, e.bits()))?;
         Expression::or(
             Expression::shl(e.clone(), s.clone())?,
             Expression::shr(
